@@ -36,13 +36,14 @@ class Observation:
 
 
 def run_incremental(schema, doc, variables, value_fn, seed, p_async=0.5, policy='random', early=False, script=None,
-                    stop=None, with_signal=False, rng=None, p_iter=0.2, p_item_async=0.2, max_pulls=200, harness_cls=Harness):
+                    stop=None, with_signal=False, rng=None, p_iter=0.2, p_item_async=0.2, max_pulls=200, harness_cls=Harness, source_burst=1):
     """stop: None | ('aclose', k) | ('abort', reason)  (abort is an external scheduler action, enabled from the start)."""
     import random
     rng = rng or random.Random(seed)
     sched = Scheduler(rng, policy=policy, script=script)
     run = Run(sched)
     hz = harness_cls(sched, value_fn, seed, p_async=p_async, p_iter=p_iter, p_item_async=p_item_async, schema=schema)
+    hz.source_burst = source_burst
     obs = Observation()
     controller = AbortController() if (with_signal or (stop and stop[0] == 'abort')) else None
     executor_ref = {}
